@@ -601,12 +601,15 @@ class SCFG(Sized):
         assert region_block.exiting is not None
         exiting_block = region_block.subregion.graph[region_block.exiting]
         jt = list(exiting_block._jump_targets)
-        for s in successors:
-            if s in jt:
-                if new_name not in jt:
-                    jt[jt.index(s)] = new_name
-                else:
-                    jt.pop(jt.index(s))
+        if successors:
+            for s in successors:
+                if s in jt:
+                    if new_name not in jt:
+                        jt[jt.index(s)] = new_name
+                    else:
+                        jt.pop(jt.index(s))
+        else:
+            jt.append(new_name)
         exiting_block = exiting_block.replace_jump_targets(
             jump_targets=tuple(jt)
         )
